@@ -164,28 +164,3 @@ Definition c04_ok (toks : list token_type) : bool :=
     end
   | _ => true        (* parse did not accept *)
   end.
-
-(* Known finding C04-K1: a side-effect block directly followed (modulo
-   whitespace / annotations) by a unary prefix operator, a group or nested
-   expression start, or another side-effect block.  The parser's next_parent is
-   stale there (or the builder ignores the left child of a side-effect node), so
-   the following expression is detached or the block is dropped. *)
-Fixpoint first_significant (l : list token_type) : option secondary :=
-  match l with
-  | [] => None
-  | t :: r => match snd (get_definition t) with
-              | S_Whitespace | S_Annotation => first_significant r
-              | s => Some s
-              end
-  end.
-
-Fixpoint known_c04_k1 (l : list token_type) : bool :=
-  match l with
-  | [] => false
-  | t :: r =>
-    (token_type_eqb t TT_EndSideEffect &&
-     match first_significant r with
-     | Some S_UnaryPrefix | Some S_StartGrouping | Some S_StartSideEffect => true
-     | _ => false
-     end) || known_c04_k1 r
-  end.
